@@ -74,7 +74,9 @@ func (p *Parser) parse(ctx context.Context, start, end int16, stream *TokenStrea
 				entry.sym.offset = rhs[0].sym.offset
 				entry.sym.endoffset = rhs[ln-1].sym.endoffset
 			}
-			p.applyRule(ctx, rule, &entry, rhs, stream, &s)
+			if err := p.applyRule(ctx, rule, &entry, rhs, stream, &s); err != nil {
+				return err
+			}
 			if debugSyntax {
 				fmt.Printf("reduced to: %v\n", symbolName(entry.sym.symbol))
 			}
